@@ -95,6 +95,13 @@ class Check:
         self.distinct = set()
         self.notes = []
         self.build_log = ""
+        if not self.replay_file:
+            import glob
+            for old in glob.glob(os.path.join(ROOT, "replays", f"{pid}-*.json")):
+                try:
+                    os.remove(old)
+                except OSError:
+                    pass
 
     # ------------------------------------------------------------------ lean side
     def build(self, modules, tables=None):
